@@ -401,15 +401,16 @@ func (b *Builder) findRegistryPackageSource(ctx context.Context, sourceAddr sour
 
 	selectedVersion := availableVersions.NewestInSet(allowedVersions)
 	if selectedVersion == versions.Unspecified {
-		// NewestInSet says "nothing matched" with the zero version, which is
-		// also what a genuine version 0.0.0 looks like.
-		zeroIsOffered := false
+		// NewestInSet says "nothing matched" with the zero version. That is
+		// also what a genuine version 0.0.0 looks like, and it starts its
+		// search there, so it never finds a pre-release of 0.0.0 either.
+		found := false
 		for _, v := range availableVersions {
-			if v == versions.Unspecified && allowedVersions.Has(v) {
-				zeroIsOffered = true
+			if allowedVersions.Has(v) && (!found || v.GreaterThan(selectedVersion)) {
+				selectedVersion, found = v, true
 			}
 		}
-		if !zeroIsOffered {
+		if !found {
 			return sourceaddrs.RemoteSource{}, fmt.Errorf("no available version of %s matches the specified version constraint", pkgAddr)
 		}
 	}
